@@ -139,6 +139,22 @@ MUTATIONS = {
         "            task = self.future_to_task.pop(future)\n", "            task = self.future_to_task[future]\n", ['C14', 'C11']),
     'c14-revert-stop-cancel': ('labtech/runners/process.py',
         "        self.executor.cancel()\n        self.executor.stop()\n", "        self.executor.stop()\n", ['C14']),
+    'c14-apply-forget-before-set': ('labtech/runners/process.py',
+        "                self._running_id_to_future_and_process.pop(future_id, None)\n            self._consumed_results.popleft()\n",
+        "            self._consumed_results.popleft()\n",
+        ['C14', 'C11']),
+    'c14-apply-take-before-set': ('labtech/runners/process.py',
+        "            future_id, result_or_ex = self._consumed_results[0]\n",
+        "            future_id, result_or_ex = self._consumed_results.popleft()\n            self._consumed_results.appendleft((-1, None))\n",
+        ['C14']),
+    'c14-untracked-result-keyerror': ('labtech/runners/process.py',
+        "            future_and_process = self._running_id_to_future_and_process.get(future_id)\n            if future_and_process is not None:\n",
+        "            future_and_process = self._running_id_to_future_and_process[future_id]\n            if future_and_process is not None:\n",
+        ['C14']),
+    # ---- C09 (fix 24)
+    'c09-revert-nested-class-import': ('labtech/serialization.py',
+        "                if ex.name != cls_module or '.' not in cls_module:\n                    raise\n",
+        "                raise\n", ['C09']),
     # ---- C19
     'c19-revert-flush-clear': ('labtech/utils.py', "            self.bufs = []\n", "", ['C19']),
     'c19-revert-second-drain': ('labtech/runners/process.py',
